@@ -349,39 +349,41 @@ Definition write_new_object (c : cfg) : M unit :=
   if exists_at t (c_mo c) then throw EIllegal
   else create_dir_all (parent (c_mo c)) ;; step (SRename (c_so c) (c_mo c)).
 
-(** fs.rs:410-484 write_new_version, with the rollback of 0c48950 *)
+(** fs.rs:426-539 write_new_version, with the rollbacks of 0c48950 and f6ecfaf: everything after the rename of the
+    version directory - the two inventory copies and, for an upgrade, the creation of the new declaration and the
+    removal of the old ones (listed BEFORE the rename, fs.rs:489-492) - is one protected closure; when it fails
+    the new declaration is removed, the saved root inventory and sidecar are written back and the version
+    directory is renamed back.  (The comparison of the earlier versions, fs.rs:446-459, only reads.) *)
 Definition write_new_version (c : cfg) (i : invr) : M unit :=
   ensure_open ;;
   if inv_is_new i then throw EIllegal else
   ensure_open ;;
-  do ex <- get_inventory c (c_mo c) ;;                                    (* fs.rs:420 *)
-  if negb (seg_eqb (head_of ex) (last (removelast (i_vs i)) [])) then throw EIllegal     (* fs.rs:423 *)
+  do ex <- get_inventory c (c_mo c) ;;                                    (* fs.rs:436 *)
+  if negb (seg_eqb (head_of ex) (last (removelast (i_vs i)) [])) then throw EIllegal     (* fs.rs:439 *)
   else
   let dest := c_mo c ++ [head_of i] in
   let src := c_so c ++ [head_of i] in
   do t <- get_tree ;;
-  if exists_at t dest then throw EIllegal else                             (* fs.rs:433 *)
-  match read_file t (c_mo c ++ [c_inv c]), read_file t (c_mo c ++ [c_side c]) with   (* fs.rs:449-450 *)
+  if exists_at t dest then throw EIllegal else                             (* fs.rs:464 *)
+  match read_file t (c_mo c ++ [c_inv c]), read_file t (c_mo c ++ [c_side c]) with   (* fs.rs:480-481 *)
   | Some old_inv, Some old_side =>
-    step (SRename src dest) ;;                                             (* fs.rs:452 *)
-    (do r <- attempt (copy_inventory_files c dest (c_mo c)) ;;             (* fs.rs:454 *)
+    let upgrade := negb (seg_eqb (i_spec i) (i_spec ex)) in                (* fs.rs:484-488 *)
+    let old := if upgrade then find_decls t (c_mo c) else [] in            (* fs.rs:489-492 *)
+    step (SRename src dest) ;;                                             (* fs.rs:494 *)
+    (do r <- attempt (copy_inventory_files c dest (c_mo c) ;;              (* fs.rs:496-507 *)
+                      (if upgrade then write_namaste (c_mo c) (i_spec i) ;; forM_ old remove_file_inf else ret tt)) ;;
      match r with
      | Some _ =>
-       attempt (write_file (c_mo c ++ [c_inv c]) old_inv ;; write_file (c_mo c ++ [c_side c]) old_side) ;;  (* 455-460 *)
-       attempt (step (SRename dest src)) ;;                                 (* fs.rs:461-464 *)
-       throw EGeneral                                                       (* fs.rs:466 *)
-     | None =>
-       if negb (seg_eqb (i_spec i) (i_spec ex)) then                        (* fs.rs:474: a version upgrade *)
-         do t2 <- get_tree ;;
-         let old := find_decls t2 (c_mo c) in                               (* fs.rs:476 *)
-         write_namaste (c_mo c) (i_spec i) ;;                               (* fs.rs:477 *)
-         forM_ old remove_file_inf                                          (* fs.rs:478-480 *)
-       else ret tt
+       (if upgrade then attempt (remove_file_inf (c_mo c ++ [i_spec i])) ;; ret tt else ret tt) ;;       (* fs.rs:510-518 *)
+       attempt (write_file (c_mo c ++ [c_inv c]) old_inv ;; write_file (c_mo c ++ [c_side c]) old_side) ;;  (* 519-524 *)
+       attempt (step (SRename dest src)) ;;                                 (* fs.rs:525-528 *)
+       throw EGeneral                                                       (* fs.rs:530 *)
+     | None => ret tt
      end)
   | _, _ => throw (EFs ENOENT)
   end.
 
-(** fs.rs:1117-1131 is_object_root: some regular file in the directory starts with 0=ocfl_object_ *)
+(** is_object_root (fs.rs): some regular file in the directory starts with 0=ocfl_object_ *)
 Definition is_object_rootb (t : tree) (p : fpath) : bool :=
   existsb (fun e => match snd e with File _ => starts_with decl_prefix (last (fst e) []) | Dir => false end)
           (children t p).
